@@ -11,7 +11,8 @@ Wires are numbered in creation order: the data qubits first (in the order they
 are passed), an ancilla created by the toolbox gets the next wire.
 
 usage: toolbox.py <repo> <out.v> [--json <path>]
-Fail-closed: any SDK call the recorder does not know raises GenError.
+Fail-closed without crashing: an SDK call the recorder does not know, or a shape the model cannot
+express, is recorded as a note and rendered as a row / list that cannot satisfy its Coq obligation.
 """
 import itertools
 import json
@@ -107,48 +108,63 @@ def load(repo):
 
 
 def record_unitary(ns, fn, nq):
+    """Never raises: unexpected operations are kept out of the list and noted (the Coq
+    obligation about the regenerated list then decides)."""
     conn = ns.RecConn()
-    qs = [ns.RecQubit(conn) for _ in range(nq)]
-    fn(*qs)
-    ops = [e for e in conn.log if e[0] != "new"]
-    if conn.nwires != nq or any(e[0] not in ("g1", "g2", "rot") for e in ops):
-        raise GenError(f"{fn.__name__}: unexpected operations {ops}")
-    return ops
+    note = None
+    try:
+        qs = [ns.RecQubit(conn) for _ in range(nq)]
+        fn(*qs)
+    except Exception as e:  # noqa
+        note = f"{type(e).__name__}: {e}"
+    ops = [e for e in conn.log if e[0] in ("g1", "g2", "rot")]
+    odd = [e for e in conn.log if e[0] not in ("g1", "g2", "rot", "new")]
+    if conn.nwires != nq or odd:
+        note = (note or "") + f" unexpected operations {odd}, {conn.nwires} qubits"
+    return ops, note
 
 
 def record_parity(ns, bases, negative):
+    """Record what parity_meas does on fresh recording qubits.  Never raises: a shape the
+    model cannot express is recorded with a note and rendered as a row that cannot check."""
     conn = ns.RecConn()
     nd = len(bases)
     qs = [ns.RecQubit(conn) for _ in range(nd)]
     saved = ns.meas_mod.Qubit
     ns.meas_mod.Qubit = ns.RecQubit  # the ancilla is created through the module-level name
+    note, m = None, None
     try:
         m = ns.meas_mod.parity_meas(qs, ("-" if negative else "") + bases)
+    except Exception as e:  # noqa
+        note = f"parity_meas raised {type(e).__name__}: {e}"
     finally:
         ns.meas_mod.Qubit = saved
-    ops = [e for e in conn.log[nd:]]
-    anc = None
+    raw = [e for e in conn.log[nd:]]
+    news = [e for e in raw if e[0] == "new"]
+    anc = news[0][1] if news else None
+    if len(news) > 1:
+        note = (note or "") + " more than one extra qubit created"
+    ops = [e for e in raw if e[0] != "new"]
+    # operations touching a wire that belongs to another recording connection cannot be expressed
     for e in ops:
-        if e[0] == "new":
-            if anc is not None or e[1] != nd:
-                raise GenError("more than one ancilla")
-            anc = e[1]
-    ops = [e for e in ops if e[0] != "new"]
+        ws = [e[2]] if e[0] == "g1" else [e[2], e[3]] if e[0] == "g2" else [e[1]] if e[0] == "meas" else []
+        if any(w >= conn.nwires for w in ws):
+            note = (note or "") + f" operation on a qubit of another connection: {e}"
     meas = [e for e in ops if e[0] == "meas"]
-    if not isinstance(m, ns.RecFuture) and isinstance(m, int):
-        if meas or any(e[0] == "flip" for e in ops):
-            raise GenError("constant result together with a measurement")
-        const = m
-    else:
-        if not isinstance(m, ns.RecFuture) or len(meas) != 1:
-            raise GenError(f"parity_meas({bases}) returned {m!r} with {len(meas)} measurements")
-        if m._wire != meas[0][1]:
-            raise GenError("returned future is not the recorded measurement")
-        # a measured ancilla must not be kept (inplace) and a data qubit must be kept
-        if (meas[0][1] == anc) == meas[0][2]:
-            raise GenError(f"measurement inplace flag unexpected: {meas[0]}")
-        const = None
-    return dict(bases=bases, neg=negative, nd=nd, anc=anc is not None, ops=ops, const=const)
+    const = None
+    if note is None:
+        if not isinstance(m, ns.RecFuture) and isinstance(m, int):
+            if meas or any(e[0] == "flip" for e in ops):
+                note = "constant result together with a measurement"
+            elif m not in (0, 1):
+                note = f"constant result {m}"
+            else:
+                const = m
+        elif not isinstance(m, ns.RecFuture) or len(meas) != 1:
+            note = f"returned {type(m).__name__} with {len(meas)} measurements"
+        elif m._wire != meas[0][1]:
+            note = "returned future is not the recorded measurement"
+    return dict(bases=bases, neg=negative, nd=nd, anc=anc is not None, ops=ops, const=const, note=note)
 
 
 def record_state_prep(ns):
@@ -193,7 +209,7 @@ def coq_tbop(e):
     if e[0] in ("g1", "g2", "rot"):
         return f"TG ({coq_qop(e)})"
     if e[0] == "meas":
-        return f"TMeas {e[1]}"
+        return f"TMeas {e[1]} {b(e[2])}"
     if e[0] == "flip":
         return "TFlip"
     raise GenError(f"cannot render {e}")
@@ -208,10 +224,13 @@ def all_strings():
 def main():
     repo, out = sys.argv[1], sys.argv[2]
     ns = load(repo)
-    tof = record_unitary(ns, ns.toffoli_gate, 3)
-    tinv = record_unitary(ns, ns.t_inverse, 1)
+    tof, tof_note = record_unitary(ns, ns.toffoli_gate, 3)
+    tinv, tinv_note = record_unitary(ns, ns.t_inverse, 1)
     rows = [record_parity(ns, s, neg) for s in all_strings() for neg in (False, True)]
-    sp = record_state_prep(ns)
+    try:
+        sp, sp_note = record_state_prep(ns), None
+    except Exception as e:  # noqa
+        sp, sp_note = [], f"{type(e).__name__}: {e}"
     o = ["(* GENERATED by gen/toolbox.py from the live netqasm.sdk.toolbox - do not edit *)",
          "From Coq Require Import ZArith List Bool.",
          "From NQ Require Import Base.Cyclo Base.QMat Toolbox.ToolboxSem.",
@@ -222,9 +241,11 @@ def main():
     body = []
     for r in rows:
         bases = lst(["P" + c for c in r["bases"]])
+        if r["note"] is not None:
+            # not expressible: a row without operations and without constant never checks
+            body.append(f"  mkPm {bases} {b(r['neg'])} {b(r['anc'])} [] None")
+            continue
         const = "None" if r["const"] is None else f"(Some {b(r['const'] == 1)})"
-        if r["const"] is not None and r["const"] not in (0, 1):
-            raise GenError(f"constant result {r['const']}")
         body.append(f"  mkPm {bases} {b(r['neg'])} {b(r['anc'])} ({lst([coq_tbop(e) for e in r['ops']])})%nat {const}")
     o.append(";\n".join(body))
     o.append("].")
@@ -233,7 +254,10 @@ def main():
     open(out, "w").write("\n".join(o) + "\n")
     if "--json" in sys.argv:
         jp = sys.argv[sys.argv.index("--json") + 1]
-        json.dump(dict(toffoli=tof, t_inverse=tinv, parity=rows, state_prep=sp), open(jp, "w"))
+        json.dump(dict(toffoli=tof, t_inverse=tinv, parity=rows, state_prep=sp,
+                       notes=dict(toffoli=tof_note, t_inverse=tinv_note, state_prep=sp_note,
+                                  parity=[(("-" if r["neg"] else "") + r["bases"], r["note"]) for r in rows if r["note"]])),
+                  open(jp, "w"), default=str)
 
 
 if __name__ == "__main__":
